@@ -63,8 +63,14 @@ def attribute(run, trace, idx):
         return "C03", "emit completed / raised at a point the specification does not allow"
     if k in ("Release", "FiredElsewhere", "UpRelease"):
         e = ev.get("e")
-        if (ev.get("fired") or k == "FiredElsewhere") and amod.premature(trace, idx, e, sync=sync):
-            return "C04", "completion callback of element %s fired before its consumer finished (%s)" % (e, k)
+        early = amod.premature(trace, idx, e, sync=sync)
+        if (ev.get("fired") or k == "FiredElsewhere") and early:
+            return "C04", "completion callback of element %s fired before its consumer finished (%s)" % (e, k), (["C03"] if k == "Release" else [])
+        if k == "Release" and early:
+            # rate_limit releases at the very end of update(): letting go before the consumer has finished means update() -- and
+            # with it the producer's emit -- no longer waits for the consumer (C03), and the reference no longer protects it (C04)
+            return "C05", ("rate_limit let go of element %s before its consumer had finished: neither the reference nor the "
+                           "producer's emit waits for the consumer any more" % e), ["C03", "C04"]
         return "C05", "reference handling of element %s differs from the specification (%s)" % (e, k)
     if k == "ObsRc":
         return "C05", "reference counts differ from the specification"
